@@ -2,6 +2,7 @@ package checks
 
 import (
 	"fmt"
+	"math/big"
 	"strings"
 
 	"github.com/formancehq/numscript/zzverif/vm"
@@ -126,7 +127,7 @@ func portionVectors(tier string) []string {
 func init() {
 	Register(&Check{
 		ID: "C06", Title: "allotments split exactly",
-		Files:    append([]vm.HarnessFile{hf("internal/interpreter", "zz_verif_c07.go"), hf("internal/interpreter", "zz_verif_c06.go")}, apiFiles...),
+		Files:    append([]vm.HarnessFile{hf("internal/interpreter", "zz_verif_c07.go"), hf("internal/interpreter", "zz_verif_c06.go"), hf("", "zz_verif_c13.go")}, apiFiles...),
 		LoadPkgs: apiLoad, InitPkgs: apiInit,
 		Cases: func(tier string) []Case {
 			var cases []Case
@@ -160,6 +161,24 @@ func init() {
 				}
 				cases = append(cases, apiCase("C06", "api-destination-allotment", []string{sendFixed("USD", "@world", "{ "+strings.Join(dparts, " ")+" }")}, nil))
 				cases = append(cases, apiCase("C06", "api-source-allotment", []string{sendFixed("USD", "{ "+strings.Join(sparts, " ")+" }", "@z")}, nil))
+			}
+			// literal spellings: the parsed portion is the written fraction, in base ten
+			for _, sp := range [][]string{{"2.50%", "97.5%"}, {"50.0%", "50.00%"}, {"010%", "090%"}, {"0.10%", "99.90%"}, {"1/010", "9/10"}, {"08%", "92%"}, {"33.3333333333333333333333%", "66.6666666666666666666667%"}, {"1 / 4", "3/4"}, {"0%", "100%"}, {"12.5%", "87.5%"}} {
+				var dparts, exp []string
+				for i, it := range sp {
+					dparts = append(dparts, it+" to @"+dnames[i])
+					if strings.HasSuffix(it, "%") {
+						exp = append(exp, nPercent(it).sx)
+					} else {
+						nd := strings.Split(strings.ReplaceAll(it, " ", ""), "/")
+						n, _ := new(big.Int).SetString(nd[0], 10)
+						d, _ := new(big.Int).SetString(nd[1], 10)
+						exp = append(exp, n.String()+"/"+d.String())
+					}
+				}
+				script := "vars {\n  monetary $n\n}\nsend $n (\n  source = @world\n  destination = { " + strings.Join(dparts, " ") + " }\n)"
+				cases = append(cases, Case{ID: "portion-literal " + strings.Join(sp, " "), Pkg: "", Fn: "ZZC06Literal", Args: []string{script, strings.Join(exp, ",")}, Tag: "portion-literal-text"})
+				cases = append(cases, Case{ID: "C06 " + script, Pkg: "", Fn: "ZZAPI", Args: []string{"C06", script, "n=mon:USD"}, Tag: "api-destination-allotment"})
 			}
 			// portion variables through the API
 			cases = append(cases, apiCase("C06", "api-portion-variable", []string{sendFixed("USD", "@world", "{ $p to @d remaining to @e }")}, map[string][2]string{"p": {"portion", "portion:1/3"}}))
